@@ -32,6 +32,7 @@ type Job struct {
 	StopAtFirst bool
 	ValidatePaths int // number of completed paths to hand to native validation
 	Note string
+	Stubs map[string]string // callee (as printed by go/ssa) -> "pkgpath.Func" of the harness stub that replaces it
 	RandomModels int // random assignments tried before a feasibility query goes to the solver (sat side only)
 	Cross string // back end used for cross-checking (default z3 4.8.12 for z3-new primaries)
 	CrossTimeout time.Duration
@@ -217,6 +218,15 @@ func (e *Engine) Run() *JobResult {
 	if fn == nil {
 		e.res.Inconclusive = append(e.res.Inconclusive, "harness not found: "+e.job.Harness)
 		return e.res
+	}
+	e.stubs = map[string]*ssa.Function{}
+	for k, v := range e.job.Stubs {
+		sf := e.P.Func(v)
+		if sf == nil {
+			e.res.Inconclusive = append(e.res.Inconclusive, "stub not found: "+v)
+			return e.res
+		}
+		e.stubs[k] = sf
 	}
 	e.res.Expected = e.P.assertLabels(fn)
 	e.prefix = nil
@@ -760,7 +770,12 @@ func (e *Engine) check(c *Term, label string, kind string) {
 	if e.job.StopAtFirst && violated && len(e.res.Violations) > 0 {
 		panic(&abortSignal{kind: abortViolation})
 	}
-	// continue under the assumption that the assertion holds
+	// continue under the assumption that the assertion holds (a constantly
+	// false assertion cannot be assumed: continue unconstrained so that later
+	// assertions on the same path are still examined)
+	if c.IsFalse() {
+		return
+	}
 	if violated {
 		if !e.feasible(c) {
 			panic(&abortSignal{kind: abortInfeasible})
